@@ -47,6 +47,12 @@ macro_rules! harness_list {
         $m!(c18_frame_n7_k2, 18, scen::c18_frame::<8, 2>);
         $m!(c18_frame_n7_k3, 18, scen::c18_frame::<8, 3>);
         // ---- thorough tier (chain <= 8 and wider variants)
+        // quick-tier sizes of the harnesses that do not fit a 15-minute check at chain 7
+        $m!(c01_step_n5_k2, 18, scen::c01_step::<6, 2>);
+        $m!(c01_walk_n3, 18, scen::c01_walk::<4, 4>);
+        $m!(c04_atomic_ack_n3_k2, 18, scen::c04_atomic_ack::<4, 2>);
+        $m!(c05_fault_n2_k2, 18, scen::c05_fault::<3, 2>);
+        $m!(c09_nonint_n2, 18, scen::c09_nonint::<3>);
         $m!(c01_step_n8_k0, 18, scen::c01_step::<9, 0>);
         $m!(c01_step_n8_k1, 18, scen::c01_step::<9, 1>);
         $m!(c01_step_n8_k2, 18, scen::c01_step::<9, 2>);
